@@ -4,12 +4,19 @@ wrapper entities connect the REAL std.axi.axi4_light.Axi4Light + connect_addr_ma
 (addresses 4 bits, registers exposed on extra output ports) -> real compiler -> VHDL -> parsed design;
 per (layout, phase) a kernel-checked theorem: for ALL input sequences over the stated alphabet (every
 valid/ready timing on all five channels, the listed addresses / data patterns / strobes) the protocol-and-data
-monitor of Models/AxiSpec.v never flags."""
+monitor of Models/AxiSpec.v never flags.
+
+layouts: plain words, a top-level reg32.Array, an Array inside a RegFile at a non-zero offset, one and two levels
+of RegFile nesting, a reg32.Register with bus-writable (MemField/MemUField), hardware-driven (UField/Field) fields
+and PushOnNotify.Read/.Write notifications exposed on output ports."""
 from __future__ import annotations
+import os
+
 import common
 import explore as X
 
-HEAD = """import cohdl
+HEAD = """from __future__ import annotations
+import cohdl
 from cohdl import Port, Bit, BitVector, Signal, Unsigned, Null
 from cohdl import std
 from cohdl.std.axi import axi4_light as axi
@@ -58,21 +65,69 @@ class W(cohdl.Entity):
 {show}
 """
 
+A_DEF, B_DEF = 0x00FF00AA, 0x0F0F3C5A
+A_LIT = "BitVector[32]('00000000111111110000000010101010')"
+B_LIT = "BitVector[32]('00001111000011110011110001011010')"
+
+# register with fields of every access kind (bits: m 7:0 and mu 11:8 bus read/write storage; cnt 17:16 and tog 24 driven by
+# the hardware side: cnt counts the write notifications, tog toggles on every read notification)
+FIELDS_SRC = """class FReg(reg32.Register):
+    m: reg32.MemField[7:0, BitVector[8]('00111100')]
+    mu: reg32.MemUField[11:8, Null]
+    cnt: reg32.UField[17:16, Null]
+    tog: reg32.Field[24, Null]
+    wr_n: reg32.PushOnNotify.Write
+    rd_n: reg32.PushOnNotify.Read
+
+    def _impl_sequential_(self):
+        if self.wr_n:
+            self.cnt <<= self.cnt.val() + 1
+        if self.rd_n:
+            self.tog <<= ~self.tog.val()
+
+class Root(reg32.AddrMap, word_count=2):
+    rf: FReg[4]
+"""
+
 LAYOUTS = {
-    # name: (register map source, [(port name, expression, byte offset, default)])
-    "one_memword": (
-        "class Root(reg32.AddrMap, word_count=2):\n    ra: reg32.MemWord[0]\n"
-        "    def _config_(self):\n        self.ra._config_(BitVector[32]('00000000111111110000000010101010'))\n",
-        [("reg_a", "root.ra.raw", 0, 0x00FF00AA)]),
-    "two_memwords": (
-        "class Root(reg32.AddrMap, word_count=4):\n    ra: reg32.MemWord[0]\n    rb: reg32.MemUWord[4]\n"
-        "    def _config_(self):\n        self.ra._config_(BitVector[32]('00000000111111110000000010101010'))\n"
-        "        self.rb._config_(Null)\n",
-        [("reg_a", "root.ra.raw", 0, 0x00FF00AA), ("reg_b", "root.rb.raw.bitvector", 4, 0)]),
-    "nested_file": (
-        "class Inner(reg32.RegFile, word_count=2):\n    rx: reg32.MemWord[4]\n\n"
-        "class Root(reg32.AddrMap, word_count=4):\n    ra: reg32.MemWord[0]\n    sub: Inner[8]\n",
-        [("reg_a", "root.ra.raw", 0, 0), ("reg_x", "root.sub.rx.raw", 12, 0)]),
+    # name: regmap = register map source, regs = [(port name, expression, byte offset, default)],
+    #       wmasks = bus-writable bits per register (default all), notif = notification ports + hardware model
+    "one_memword": dict(
+        regmap="class Root(reg32.AddrMap, word_count=2):\n    ra: reg32.MemWord[0]\n"
+               f"    def _config_(self):\n        self.ra._config_({A_LIT})\n",
+        regs=[("reg_a", "root.ra.raw", 0, A_DEF)]),
+    "two_memwords": dict(
+        regmap="class Root(reg32.AddrMap, word_count=4):\n    ra: reg32.MemWord[0]\n    rb: reg32.MemUWord[4]\n"
+               f"    def _config_(self):\n        self.ra._config_({A_LIT})\n"
+               "        self.rb._config_(Null)\n",
+        regs=[("reg_a", "root.ra.raw", 0, A_DEF), ("reg_b", "root.rb.raw.bitvector", 4, 0)]),
+    "nested_file": dict(
+        regmap="class Inner(reg32.RegFile, word_count=2):\n    rx: reg32.MemWord[4]\n\n"
+               "class Root(reg32.AddrMap, word_count=4):\n    ra: reg32.MemWord[0]\n    sub: Inner[8]\n",
+        regs=[("reg_a", "root.ra.raw", 0, 0), ("reg_x", "root.sub.rx.raw", 12, 0)]),
+    # array of registers at the top level: elements at 4 and 8
+    "array_top": dict(
+        regmap="class Root(reg32.AddrMap, word_count=4):\n    arr: reg32.Array[reg32.MemWord, 4:12:4]\n"
+               f"    def _config_(self):\n        self.arr[0]._config_({A_LIT})\n        self.arr[1]._config_({B_LIT})\n",
+        regs=[("reg_a", "root.arr[0].raw", 4, A_DEF), ("reg_b", "root.arr[1].raw", 8, B_DEF)]),
+    # array inside a register file at offset 8: elements at 8 + 0 and 8 + 4
+    "array_in_file": dict(
+        regmap="class Inner(reg32.RegFile, word_count=2):\n    arr: reg32.Array[reg32.MemWord, 0:8:4]\n\n"
+               "class Root(reg32.AddrMap, word_count=4):\n    sub: Inner[8]\n"
+               f"    def _config_(self):\n        self.sub.arr[0]._config_({A_LIT})\n        self.sub.arr[1]._config_({B_LIT})\n",
+        regs=[("reg_a", "root.sub.arr[0].raw", 8, A_DEF), ("reg_b", "root.sub.arr[1].raw", 12, B_DEF)]),
+    # two levels of register files, both at non-zero offsets: outer@8 / inner@4 / register@0 decodes at 12
+    "nested2": dict(
+        regmap="class In2(reg32.RegFile, word_count=1):\n    rx: reg32.MemWord[0]\n\n"
+               "class In1(reg32.RegFile, word_count=2):\n    f: In2[4]\n\n"
+               "class Root(reg32.AddrMap, word_count=4):\n    g: In1[8]\n"
+               f"    def _config_(self):\n        self.g.f.rx._config_({A_LIT})\n",
+        regs=[("reg_x", "root.g.f.rx.raw", 12, A_DEF)]),
+    "fields": dict(
+        regmap=FIELDS_SRC,
+        regs=[("reg_f", "root.rf._to_bits_()", 4, 0x3C)],
+        wmasks=[0xFFF],
+        notif=dict(ports=[("nt_w", "root.rf.wr_n._bit"), ("nt_r", "root.rf.rd_n._bit")], reg=0, wshift=16, wwidth=2, rshift=24)),
 }
 
 
@@ -88,64 +143,144 @@ def lst(xs):
     return "[" + "; ".join(xs) + "]"
 
 
-def phases(tier, addrs, nregs=1):
-    z32, f32, a5 = 0, 0xFFFFFFFF, 0xA5A5A5A5
-    idle = {"axi_awprot": lst([uv(3, 0)]), "axi_arprot": lst([uv(3, 0)])}
-    wr_off = {"axi_awaddr": lst([uv(4, 0)]), "axi_awvalid": "[VL false]", "axi_wdata": lst([bv(32, 0)]),
-              "axi_wstrb": lst([bv(4, 0)]), "axi_wvalid": "[VL false]", "axi_bready": "[VL false]"}
-    rd_off = {"axi_araddr": lst([uv(4, 0)]), "axi_arvalid": "[VL false]", "axi_rready": "[VL false]"}
-    ph = {}
-    datas = [f32] if tier == "quick" else [z32, f32, a5]
-    # quick: two registers x two strobe patterns is a product of > 10^4 states; one pattern there (the one-register
-    # layout keeps both)
-    strbs = ([5, 10] if nregs == 1 else [5]) if tier == "quick" else [0, 1, 4, 12, 15]
-    ph["write"] = dict(idle, **rd_off, axi_awaddr=lst([uv(4, a) for a in addrs]),
-                       axi_wdata=lst([bv(32, d) for d in datas]), axi_wstrb=lst([bv(4, s) for s in strbs]))
-    ph["read"] = dict(idle, **wr_off, axi_araddr=lst([uv(4, a) for a in addrs]))
-    ph["readwrite"] = dict(idle, axi_awaddr=lst([uv(4, addrs[0])]), axi_wdata=lst([bv(32, f32)] if tier == "quick" else [bv(32, z32), bv(32, f32)]),
-                           axi_wstrb=lst([bv(4, 5)]), axi_araddr=lst([uv(4, addrs[0])] if tier == "quick" else [uv(4, a) for a in addrs[:2]]))
-    return ph
+Z32, F32, A5, C3 = 0, 0xFFFFFFFF, 0xA5A5A5A5, 0x3C3CC3C3
+IDLE = {"axi_awprot": lst([uv(3, 0)]), "axi_arprot": lst([uv(3, 0)])}
+WR_OFF = {"axi_awaddr": lst([uv(4, 0)]), "axi_awvalid": "[VL false]", "axi_wdata": lst([bv(32, 0)]),
+          "axi_wstrb": lst([bv(4, 0)]), "axi_wvalid": "[VL false]", "axi_bready": "[VL false]"}
+RD_OFF = {"axi_araddr": lst([uv(4, 0)]), "axi_arvalid": "[VL false]", "axi_rready": "[VL false]"}
+
+
+def ph_write(addrs, datas, strbs):
+    """all valid/ready timings of AW, W, B (the master may present W before AW, change WDATA/WSTRB once its W beat was
+    taken, and raise the next AWVALID/WVALID while BVALID still waits for BREADY); read channels idle"""
+    return dict(IDLE, **RD_OFF, axi_awaddr=lst([uv(4, a) for a in addrs]), axi_wdata=lst([bv(32, d) for d in datas]),
+                axi_wstrb=lst([bv(4, s) for s in strbs]))
+
+
+def ph_read(addrs):
+    return dict(IDLE, **WR_OFF, axi_araddr=lst([uv(4, a) for a in addrs]))
+
+
+def ph_rw(waddrs, datas, strbs, raddrs):
+    return dict(IDLE, axi_awaddr=lst([uv(4, a) for a in waddrs]), axi_wdata=lst([bv(32, d) for d in datas]),
+                axi_wstrb=lst([bv(4, s) for s in strbs]), axi_araddr=lst([uv(4, a) for a in raddrs]))
+
+
+def plan(tier):
+    """[(layout, phase, alphabet overrides, description of the alphabet)]"""
+    q = tier == "quick"
+    P = []
+
+    def add(layout, phase, alpha, **desc):
+        P.append((layout, phase, alpha, desc))
+
+    def wr(layout, phase, addrs, datas, strbs):
+        add(layout, phase, ph_write(addrs, datas, strbs), awaddr=addrs, wdata=datas, wstrb=strbs)
+
+    def rd(layout, phase, addrs):
+        add(layout, phase, ph_read(addrs), araddr=addrs)
+
+    def rw(layout, phase, waddrs, datas, strbs, raddrs):
+        add(layout, phase, ph_rw(waddrs, datas, strbs, raddrs), awaddr=waddrs, wdata=datas, wstrb=strbs, araddr=raddrs)
+
+    datas = [F32] if q else [Z32, F32, A5]
+    strbs1 = [5, 10] if q else [0, 1, 4, 12, 15]
+    # two registers x two strobe patterns is a product of > 10^4 states; one pattern there
+    strbs2 = [5] if q else [0, 1, 4, 12, 15]
+    # --- plain words ---
+    wr("one_memword", "write", [0, 4], datas, strbs1)
+    rd("one_memword", "read", [0, 4])
+    rw("one_memword", "readwrite", [0], [F32] if q else [Z32, F32], [5], [0] if q else [0, 4])
+    # W beat before the AW beat with WDATA *and* WSTRB changing after the W handshake (the write phase above has one data
+    # pattern in the quick tier): the latched beat must be used
+    wr("one_memword", "wskew", [0], [A5, C3], [3, 12] if q else [1, 6, 15])
+    wr("two_memwords", "write", [0, 4, 8], datas, strbs2)
+    rd("two_memwords", "read", [0, 4, 8] if q else [0, 4, 8, 12])
+    if not q:
+        rw("two_memwords", "readwrite", [0], [Z32, F32], [5], [0, 4])
+        wr("nested_file", "write", [0, 12, 4], datas, strbs2)
+        rd("nested_file", "read", [0, 12, 4, 8])
+        rw("nested_file", "readwrite", [0], [Z32, F32], [5], [0, 12])
+    # --- arrays ---
+    wr("array_top", "write", [4, 8, 0], datas, strbs2)
+    rd("array_top", "read", [4, 8, 12] if q else [0, 4, 8, 12])
+    wr("array_in_file", "write", [8, 12, 0], datas, strbs2)
+    rd("array_in_file", "read", [8, 12, 4] if q else [0, 4, 8, 12])
+    # --- two levels of register files ---
+    wr("nested2", "write", [12, 4] if q else [12, 4, 8], datas, strbs1)
+    rd("nested2", "read", [12, 4] if q else [0, 4, 8, 12])
+    if not q:
+        rw("nested2", "readwrite", [12], [Z32, F32], [5], [12, 4])
+    # --- register with fields: full-word writes (access kinds, notifications, hardware-side updates) ---
+    wr("fields", "write", [4, 0], [F32, Z32] if q else [Z32, F32, A5], [15])
+    rd("fields", "read", [4, 0] if q else [0, 4, 8])
+    rw("fields", "readwrite", [4], [F32] if q else [Z32, F32], [15], [4] if q else [4, 0])
+    # partial strobes on a register with fields (byte 1 holds mu and the upper bits of nothing else)
+    wr("fields", "write_strobe", [4], [F32] if q else [Z32, F32], [1, 2] if q else [0, 1, 2, 3, 15])
+    return P
 
 
 def run(ck: common.Check, replay=None):
     ck.check_props("C20_Properties.v")
-    layouts = ["one_memword", "two_memwords"] if ck.tier == "quick" else list(LAYOUTS)
+    todo = plan(ck.tier)
+    only = [s for s in os.environ.get("C20_ONLY", "").split(",") if s]
+    if only:   # development aid: C20_ONLY=fields_write,nested2 runs the cases whose name contains one of the words
+        todo = [t for t in todo if any(s in f"{t[0]}_{t[1]}" for s in only)]
+    layouts = []
+    for t in todo:
+        if t[0] not in layouts:
+            layouts.append(t[0])
     designs = []
     for name in layouts:
-        regmap, regs = LAYOUTS[name]
-        ports = "\n".join(f"    {p} = Port.output(BitVector[32])" for p, _, _, _ in regs)
-        show = "\n".join(f"            self.{p} <<= {e}" for p, e, _, _ in regs)
-        designs.append({"name": "axi_" + name, "source": HEAD.format(regmap=regmap, regports=ports, show=show), "entity": "W"})
+        L = LAYOUTS[name]
+        nports = (L.get("notif") or {}).get("ports", [])
+        ports = "\n".join([f"    {p} = Port.output(BitVector[32])" for p, _, _, _ in L["regs"]]
+                          + [f"    {p} = Port.output(Bit)" for p, _ in nports])
+        show = "\n".join([f"            self.{p} <<= {e}" for p, e, _, _ in L["regs"]] + [f"            self.{p} <<= {e}" for p, e in nports])
+        designs.append({"name": "axi_" + name, "source": HEAD.format(regmap=L["regmap"], regports=ports, show=show), "entity": "W"})
     res = X.compile_designs(ck, designs)
-    cases = []
+    compiled = {}
     for name, dsg, r in zip(layouts, designs, res):
         if not r["ok"]:
             ck.obligation(False)
             ck.violation({"layout": name}, "wrapper around the real AXI register map no longer compiles: " + r["error"][:200],
                          {"source": dsg["source"], "error": r.get("trace", r["error"])}, no_input=True)
             continue
-        regs = LAYOUTS[name][1]
+        compiled[name] = (dsg, r)
+    cases = []
+    for name, phase, alpha, desc in todo:
+        if name not in compiled:
+            continue
+        dsg, r = compiled[name]
+        L = LAYOUTS[name]
+        regs = L["regs"]
         offsets = lst([f"{o}%Z" for _, _, o, _ in regs])
         defaults = lst([f"{d}%Z" for _, _, _, d in regs])
-        mapped = [o for _, _, o, _ in regs]
-        unmapped = [a for a in (0, 4, 8, 12) if a not in mapped]
-        addrs = (mapped[:1] if ck.tier == "quick" and len(mapped) > 1 else mapped) + unmapped[:1]
-        if ck.tier == "quick" and len(mapped) > 1:
-            addrs = mapped[:2] + unmapped[:1]
-        for phase, alpha in phases(ck.tier, addrs, len(mapped)).items():
-            if phase == "readwrite" and ck.tier == "quick" and name != "one_memword":
-                continue
-            cases.append(X.Case(f"axi_{name}_{phase}", r["vhdl"], step=f"axi_monitor 3%Z {offsets}", init=f"axi_m0 {defaults}",
-                                monitor=True, imports="From Cohdl Require Import Models.AxiSpec.",
-                                alphabet_overrides=alpha, fuel=600000 if ck.tier == "quick" else 6000000,
-                                meta={"layout": name, "phase": phase, "addresses": addrs, "source": dsg["source"]}))
-            ck.hist("phases", phase)
-    X.run_cases(ck, cases, "AXI4-Lite monitor flags on an input sequence (handshake, response count, strobed write or read data)",
-                key_of=lambda c: {"layout": c.meta["layout"], "phase": c.meta["phase"]}, count_first=4, timeout=3300)
+        wmasks = lst([f"{w}%Z" for w in L.get("wmasks", [])])
+        nf = L.get("notif")
+        nspec = ("(Some {| n_reg := %d%%nat; n_wshift := %d%%Z; n_wwidth := %d%%Z; n_rshift := %d%%Z |})"
+                 % (nf["reg"], nf["wshift"], nf["wwidth"], nf["rshift"])) if nf else "None"
+        cases.append(X.Case(f"axi_{name}_{phase}", r["vhdl"], step=f"axi_monitor_x 3%Z {offsets} {wmasks} {nspec}",
+                            init=f"axi_m0 {defaults}", monitor=True, imports="From Cohdl Require Import Models.AxiSpec.",
+                            alphabet_overrides=alpha, fuel=600000 if ck.tier == "quick" else 6000000,
+                            meta={"layout": name, "phase": phase, "alphabet": desc,
+                                  "registers": [{"port": p, "offset": o, "default": d} for p, _, o, d in regs],
+                                  "inputs": "awaddr awprot awvalid wdata wstrb wvalid bready araddr arprot arvalid rready",
+                                  "outputs": "awready wready bresp bvalid arready rdata rresp rvalid " + " ".join(p for p, _, _, _ in regs)
+                                             + ("" if not nf else " " + " ".join(p for p, _ in nf["ports"])),
+                                  "source": dsg["source"]}))
+        ck.hist("phases", phase)
+        ck.hist("layouts", name)
+    X.run_cases(ck, cases, "AXI4-Lite monitor flags on an input sequence (handshake, response count, decode, strobed/masked write, "
+                           "read data, notification or hardware-side field update)",
+                key_of=lambda c: {"layout": c.meta["layout"], "phase": c.meta["phase"]}, count_first=len(cases), timeout=3300)
     ck.cov["rule"] = ("one theorem per (register-map layout, phase); each covers all sequences over the phase's alphabet: all valid/ready "
                       "timings of the channels in the phase, the listed addresses (mapped and unmapped), data patterns and strobes")
-    ck.trusted += ["fail-closed VHDL reader", "Vhdl.Sem", "axi_monitor (Models/AxiSpec.v) as the rendering of the AXI4-Lite slave obligations"]
-    ck.assumptions += ["data alphabet = two (thorough: three) 32-bit patterns, strobe alphabet = listed values: the theorem is over that alphabet; "
-                       "independence of the data path from the other data values is an argument, not a theorem",
+    ck.trusted += ["fail-closed VHDL reader", "Vhdl.Sem", "axi_monitor_x (Models/AxiSpec.v) as the rendering of the AXI4-Lite slave obligations, "
+                   "of the reference data model (ref_write / ref_read / merge_masked) and of the wrapper's hardware process (hw_tick)"]
+    ck.assumptions += ["data alphabet = one or two (thorough: three) 32-bit patterns, strobe alphabet = listed values: the theorem is over that "
+                       "alphabet; independence of the data path from the other data values is an argument, not a theorem",
                        "the master obeys 'valid and payload stay until ready' (otherwise the monitor stops judging)",
-                       "write and read channels are explored separately plus one combined phase with a small alphabet"]
+                       "write and read channels are explored separately plus one combined phase with a small alphabet",
+                       "register with fields: the hardware side is the wrapper's own process (write-notification counter, read-notification "
+                       "toggle); FlagField / FlagOnNotify are not covered"]
